@@ -726,7 +726,15 @@ class ExpressionEvaluator:
         raise ExpressionError(f"Cannot evaluate node type: {type(node).__name__}")
 
     def _eval_Expression(self, node: ast.Expression) -> Any:
-        return self.evaluate(node.body)
+        try:
+            return self.evaluate(node.body)
+        except ExpressionError:
+            raise
+        except (TypeError, ValueError, AttributeError, KeyError, IndexError, ArithmeticError,
+                StopIteration, RecursionError, re.error) as e:
+            # Ill-typed or partial expressions (e.g. amount > "x", contains(5), next() on an empty
+            # generator) are expression errors: callers skip the rule instead of aborting the run
+            raise ExpressionError(f"Cannot evaluate expression: {type(e).__name__}: {e}")
 
     def _eval_Constant(self, node: ast.Constant) -> Any:
         return node.value
@@ -900,7 +908,15 @@ class TransactionEvaluator:
         raise ExpressionError(f"Cannot evaluate node type: {type(node).__name__}")
 
     def _eval_Expression(self, node: ast.Expression) -> Any:
-        return self.evaluate(node.body)
+        try:
+            return self.evaluate(node.body)
+        except ExpressionError:
+            raise
+        except (TypeError, ValueError, AttributeError, KeyError, IndexError, ArithmeticError,
+                StopIteration, RecursionError, re.error) as e:
+            # Ill-typed or partial expressions (e.g. amount > "x", contains(5), next() on an empty
+            # generator) are expression errors: callers skip the rule instead of aborting the run
+            raise ExpressionError(f"Cannot evaluate expression: {type(e).__name__}: {e}")
 
     def _eval_Constant(self, node: ast.Constant) -> Any:
         return node.value
